@@ -196,7 +196,7 @@ func (fp *fenParser) fifty() error {
 		return fmt.Errorf("fifty move count out of range %d", cnt)
 	}
 
-	fp.b.FiftyCnt = Depth(cnt)
+	fp.b.FiftyCnt = HalfMoves(cnt)
 	return nil
 }
 
